@@ -26,6 +26,9 @@ import (
 // events of different generators commute (each carries its own store answer).  A failed
 // store call is identified by the ticket carried in its error value, a successful one by the
 // counter it returned.
+// the frame of SeqIDGen.Next in a goroutine dump (common/watch.go)
+const nextFrame = "qchen.fun/fatchoy/x/uuid.(*SeqIDGen).Next("
+
 type concParams struct {
 	seed                     uint64
 	ngen, callers, each, dly int
@@ -105,10 +108,11 @@ func (s *concStore) Incr() (int64, error) {
 func (s *concStore) Close() error { return nil }
 
 type concCall struct {
-	g     int64
-	id    int64
-	err   error
-	panic bool
+	g       int64
+	id      int64
+	err     error
+	panic   bool
+	blocked bool // the call never returned: parked on the generator's mutex for good (watch.go)
 }
 
 type keyed struct {
@@ -157,26 +161,72 @@ func runConcurrent(p concParams) ([]event, []outc) {
 	}
 	phase := func() {
 		var wg sync.WaitGroup
-		res := make([][]concCall, p.ngen*p.callers)
+		n := p.ngen * p.callers
+		res := make([][]concCall, n)
+		var resMu sync.Mutex
+		gids := make([]int64, n)
+		finished := make([]bool, n)
 		start := make(chan struct{})
+		ready := make(chan struct{}, n)
 		for g := 0; g < p.ngen; g++ {
 			for c := 0; c < p.callers; c++ {
 				wg.Add(1)
 				go func(g, k int) {
 					defer wg.Done()
+					gids[k] = CurGoid()
+					ready <- struct{}{}
 					<-start
 					sg := gens[g]
 					for i := 0; i < p.each; i++ {
 						var cc concCall
 						cc.g = int64(g)
 						cc.panic, _ = Catch(func() { cc.id, cc.err = sg.Next() })
+						resMu.Lock()
 						res[k] = append(res[k], cc)
+						resMu.Unlock()
 					}
+					resMu.Lock()
+					finished[k] = true
+					resMu.Unlock()
 				}(g, g*p.callers+c)
 			}
 		}
+		for i := 0; i < n; i++ {
+			<-ready
+		}
 		close(start)
-		wg.Wait()
+		allDone := make(chan struct{})
+		go func() { wg.Wait(); close(allDone) }()
+	waiting:
+		for {
+			select {
+			case <-allDone:
+				break waiting
+			case <-time.After(25 * time.Millisecond):
+			}
+			// nobody finished the phase yet: are all remaining callers parked on a generator's
+			// mutex with nobody inside Next?  Then they never return.
+			resMu.Lock()
+			left := map[int64]bool{}
+			for k := range finished {
+				if !finished[k] {
+					left[gids[k]] = true
+				}
+			}
+			resMu.Unlock()
+			if len(left) > 0 && ConfirmedStuck(nextFrame, left) {
+				resMu.Lock()
+				for k := range finished {
+					if !finished[k] {
+						res[k] = append(res[k], concCall{g: int64(k / p.callers), blocked: true})
+					}
+				}
+				resMu.Unlock()
+				break waiting
+			}
+		}
+		resMu.Lock()
+		defer resMu.Unlock()
 		st.mu.Lock()
 		defer st.mu.Unlock()
 		eff := p.step
@@ -189,6 +239,8 @@ func runConcurrent(p concParams) ([]event, []outc) {
 				var o outc
 				k := keyed{k1: 1 << 62}
 				switch {
+				case cc.blocked:
+					o.kind = 6
 				case cc.panic:
 					o.kind = 5
 				case cc.err != nil:
